@@ -1,6 +1,6 @@
 CONSTANTS
   Shapes = {"T", "Option", "OptionOption", "BoxOption", "OptionBox", "VecOption"}
-  Ts = {"u32", "String", "VecU8", "User", "T", "unit", "DateTime", "Ovr"}
+  Ts = {"u32", "String", "VecU8", "User", "T", "unit", "DateTime", "Ovr", "Sas"}
   Defaults = {"absent", "bare", "merged_rename", "separate", "path"}
 INIT Init
 NEXT Next
